@@ -83,11 +83,37 @@ def gen_waiting_race(r: random.Random) -> dict[str, Any]:
     return {"setup": setup, "calls": calls, "nthreads": nthreads}
 
 
+def gen_param_race(r: random.Random) -> dict[str, Any]:
+    """Two (three) workers each set the parameter "x" of their OWN running trial of one study, with distributions that
+    are not compatible with each other (Float / Int): in every sequential order exactly the first call succeeds and every
+    later one raises, and all readers see one distribution for the name.  (Issuer-side check-then-act instead of
+    arbitration by the log order lets both succeed.)"""
+    setup: list[dict[str, Any]] = [{"op": "createStudy", "name": "s0", "dirs": [1]}]
+    nthreads = r.choice([2, 2, 3])
+    for _ in range(nthreads):
+        setup.append({"op": "createTrial", "sid": 0, "tmpl": None})
+    if r.random() < 0.3:   # the name is already taken: every racer with the other distribution must fail
+        setup.append({"op": "createTrial", "sid": 0, "tmpl": None})
+        setup.append({"op": "setTrialParam", "tid": nthreads, "name": "x", "dist": D1, "internal": K.ftok(0.5)})
+    calls: list[dict[str, Any]] = []
+    for th in range(nthreads):
+        d, v = (D1, 0.5) if (th + r.randrange(2)) % 2 == 0 else (D2, 3.0)
+        if th == 1 and all(c["op"].get("dist", d) == d for c in calls):
+            d, v = (D2, 3.0) if d == D1 else (D1, 0.5)
+        calls.append({"thread": th, "op": {"op": "setTrialParam", "tid": th, "name": "x", "dist": d, "internal": K.ftok(v)}})
+        if r.random() < 0.4:
+            calls.append({"thread": th, "op": {"op": "getAllTrials", "sid": 0, "states": None}})
+    calls.append({"thread": nthreads, "op": {"op": "getAllTrials", "sid": 0, "states": None}})
+    return {"setup": setup, "calls": calls, "nthreads": nthreads}
+
+
 def gen_case(r: random.Random) -> dict[str, Any]:
     if r.random() < 0.12:
         return gen_best_race(r)
     if r.random() < 0.1:
         return gen_waiting_race(r)
+    if r.random() < 0.1:
+        return gen_param_race(r)
     setup: list[dict[str, Any]] = [{"op": "createStudy", "name": "s0", "dirs": [1]}]
     n_studies = 1
     if r.random() < 0.3:
@@ -319,7 +345,21 @@ def _worker(args: tuple[str, list[tuple[int, dict[str, Any], int | None]], str, 
                     # impossible state (a read assembled from several moments).
                     req2 = dict(res["req"], calls=[c for c in res["req"]["calls"] if not c["op"]["op"].startswith("get")])
                     ans2 = drv.ask(req2) if len(req2["calls"]) < len(res["req"]["calls"]) else {"ok": False}
-                    rec.update(kind="violation", sub="torn-read" if ans2.get("ok") else "not-linearizable", observed=res["req"]["calls"],
+                    sub = "torn-read" if ans2.get("ok") else "not-linearizable"
+                    if sub == "not-linearizable":
+                        # Two successful set_trial_param calls on one parameter name of ONE study with different distribution
+                        # classes on two trials: impossible in every sequential order whatever else happened (the second
+                        # one must raise ValueError) - the check-then-act race of the compatibility check.  Only claimed
+                        # for histories that consist of such calls and reads (the generator gen_param_race), so that
+                        # nothing else can hide behind the classification.
+                        w = req2["calls"]
+                        one_study = sum(1 for o in case["setup"] if o["op"] == "createStudy") == 1
+                        only_sp = all(c["op"]["op"] == "setTrialParam" for c in w)
+                        sp = [c["op"] for c in w if not c["op"].get("implRaised")]
+                        if one_study and only_sp and any(a_["name"] == b_["name"] and a_["tid"] != b_["tid"] and a_["param"]["kind"] != b_["param"]["kind"]
+                                                         for a_ in sp for b_ in sp):
+                            sub = "param-distribution-race"
+                    rec.update(kind="violation", sub=sub, observed=res["req"]["calls"],
                                why="no linearization exists (explored %d orders)%s: %s" % (
                                    ans["explored"], "; the writes alone do linearize, so a reader saw a state that never existed" if ans2.get("ok") else "",
                                    json.dumps(res["req"]["calls"])[:900]))
@@ -403,6 +443,106 @@ def journal_create_study_race(chk: core.Check) -> None:
                       "journal: create_new_study %s although the only sequential orders of {create_new_study('s'), delete_study(0) -> None} answer 0" % outcome)
 
 
+def journal_param_race(chk: core.Check) -> None:
+    """Two JournalStorage objects on one file ('processes').  Worker A sets parameter "x" of ITS trial with a Float
+    distribution; just before A's record reaches the file, worker B's complete call sets "x" of ITS OWN trial with an Int
+    distribution.  The log order arbitrates: B's record is first, A's is rejected at replay by every worker and A's call
+    raises ValueError - the sequential order (B, A).  No sequential order lets both calls succeed: whichever is second sees
+    an incompatible distribution for the name.  Both modes of the race (A first / B first in the file) are run."""
+    from optuna.distributions import FloatDistribution, IntDistribution
+    from optuna.storages import JournalStorage
+    from optuna.storages.journal import JournalFileBackend
+    from optuna.study import StudyDirection
+
+    for variant in ("other-call-before-append", "other-call-after-append"):
+        path = os.path.join(chk.tmp, "prace_%s_%d.log" % (variant[-13:], os.getpid()))
+        a, b = JournalStorage(JournalFileBackend(path)), JournalStorage(JournalFileBackend(path))
+        sid = a.create_new_study([StudyDirection.MINIMIZE], "s")
+        ta, tb = a.create_new_trial(sid), b.create_new_trial(sid)
+        orig = a._backend.append_logs
+        out: dict[str, str] = {}
+
+        def other() -> None:
+            try:
+                b.set_trial_param(tb, "x", 3.0, IntDistribution(0, 10))
+                out["b"] = "ok"
+            except BaseException as e:  # noqa: BLE001
+                out["b"] = type(e).__name__
+
+        def hooked(logs: list[dict[str, Any]], _orig: Any = orig, _variant: str = variant) -> None:
+            mine = bool(logs) and any(l.get("param_name") == "x" for l in logs)
+            if mine and _variant == "other-call-before-append" and "b" not in out:
+                other()
+            _orig(logs)
+            if mine and _variant == "other-call-after-append" and "b" not in out:
+                other()
+
+        a._backend.append_logs = hooked  # type: ignore[method-assign]
+        try:
+            a.set_trial_param(ta, "x", 0.5, FloatDistribution(0, 1))
+            out["a"] = "ok"
+        except BaseException as e:  # noqa: BLE001
+            out["a"] = type(e).__name__
+        finally:
+            a._backend.append_logs = orig  # type: ignore[method-assign]
+        seen = {}
+        for name, st in (("a", a), ("b", b), ("fresh", JournalStorage(JournalFileBackend(path)))):
+            seen[name] = sorted((t.number, sorted((k, type(d).__name__) for k, d in t.distributions.items())) for t in st.get_all_trials(sid, deepcopy=False))
+        chk.case({"part": "journal-param-race", "variant": variant}, nontrivial=True)
+        chk.count("journal-param-race")
+        kinds = {d for rows in seen.values() for _, ds in rows for _, d in ds}
+        if "b" not in out:
+            chk.broke("correspondence", {"what": "journal-param-race: the hook on append_logs never saw a SET_TRIAL_PARAM record for 'x' (%s)" % variant})
+        elif sorted(out.values()) != ["ValueError", "ok"] or len(kinds) != 1 or len({json.dumps(v) for v in seen.values()}) != 1:
+            chk.violation({"backend": "journal", "kind": "param-distribution-race"}, {"part": "journal-param-race", "variant": variant, "outcome": out, "seen": seen},
+                          "journal (%s): two workers set parameter 'x' of two trials of one study with incompatible distributions: outcomes %s, distributions seen %s "
+                          "- in every sequential order exactly one call succeeds and one raises ValueError, and the study holds one distribution for the name" % (
+                              variant, json.dumps(out, sort_keys=True), json.dumps(seen, sort_keys=True)[:300]))
+
+
+def rdb_param_race(chk: core.Check) -> None:
+    """Known finding F37, deterministically: two RDBStorage objects on one SQLite file; worker B's whole
+    set_trial_param("x", Int) on its trial is placed just before worker A's INSERT of its own ("x", Float) row, i.e. after
+    A's compatibility check.  In every sequential order the second call raises ValueError."""
+    import sqlalchemy
+
+    from optuna.distributions import FloatDistribution, IntDistribution
+    from optuna.storages import RDBStorage
+    from optuna.study import StudyDirection
+
+    url = "sqlite:///" + os.path.join(chk.tmp, "f37_%d.db" % os.getpid())
+    a, b = RDBStorage(url), RDBStorage(url)
+    sid = a.create_new_study([StudyDirection.MINIMIZE], "s")
+    ta, tb = a.create_new_trial(sid), b.create_new_trial(sid)
+    out: dict[str, str] = {}
+
+    def hook(conn: Any, cursor: Any, statement: str, parameters: Any, context: Any, executemany: Any) -> None:
+        if statement.lstrip().upper().startswith("INSERT INTO TRIAL_PARAMS") and "b" not in out:
+            try:
+                b.set_trial_param(tb, "x", 3.0, IntDistribution(0, 10))
+                out["b"] = "ok"
+            except Exception as e:  # noqa: BLE001
+                out["b"] = type(e).__name__
+
+    sqlalchemy.event.listen(a.engine, "before_cursor_execute", hook)
+    try:
+        a.set_trial_param(ta, "x", 0.5, FloatDistribution(0, 1))
+        out["a"] = "ok"
+    except Exception as e:  # noqa: BLE001
+        out["a"] = type(e).__name__
+    finally:
+        sqlalchemy.event.remove(a.engine, "before_cursor_execute", hook)
+    chk.case({"part": "rdb-param-race"}, nontrivial=True)
+    chk.count("rdb-param-race")
+    if "b" not in out:
+        chk.broke("correspondence", {"what": "rdb-param-race: no INSERT INTO trial_params was seen on worker A's connection"})
+    elif sorted(out.values()) != ["ValueError", "ok"]:
+        chk.violation({"backend": "rdb", "base": "sqlite", "kind": "param-distribution-race", "controlled": False},
+                      {"part": "rdb-param-race", "outcome": out},
+                      "rdb: two workers set parameter 'x' of two trials of one study with incompatible distributions, the second call placed between the "
+                      "first one's compatibility check and its INSERT: outcomes %s - in every sequential order exactly one call succeeds" % json.dumps(out, sort_keys=True))
+
+
 def main(chk: core.Check) -> int:
     chk.rule = RULE
     tables = tlock.regenerate(chk)
@@ -411,6 +551,8 @@ def main(chk: core.Check) -> int:
         chk.prove(["OptunaVerif.Props.C03", "OptunaVerif.Props.C03Cache"])
     quick = chk.tier == "quick"
     journal_create_study_race(chk)
+    journal_param_race(chk)
+    rdb_param_race(chk)
     try:
         core.ensure_driver()
         explore(chk, ["mem", "journal-symlink", "journal-open"], 160 if quick else 3000)
